@@ -33,7 +33,7 @@ All twenty properties are claimed in `MANIFEST.json`; `not_applicable` is empty.
 |----|------------------|--------------------------------------|-----------------------------------------------|
 | C01 | Prim, Prog, Header, Body | `read_write`, `write_ok_decodes`, `write_fails_loudly`, `write_dim_mismatch`, `missing_iff_conf_zero` | numpy dtype narrowing, `struct` |
 | C02 | same, SpecEnc (`specFile`) | `write_layout`, `read_of_reference`, `rewrite_identity`, `write_read_write` | the Lean reference encoder is compared byte for byte with an independent Python one (`harness/refenc.py`) |
-| C03 | Stream, Body (windows) | `window_eq_slice`, `stream_eq_bytes`, `stream_window_eq_slice`, `cache_neutral`, `consumption_bound`, rejection lemmas | time→frame rounding evaluated at `Float` |
+| C03 | Stream, Body (windows) | `window_eq_slice`, `stream_eq_bytes`, `stream_window_eq_slice`, `cache_neutral`, `consumption_bound`, `adjacent_windows_tile` (frames [s, s+n) then [s+n, s+n+m) are exactly [s, s+n+m): nothing lost, duplicated or reordered at a window boundary), `slice_data_of_slice` (a window of a window), rejection lemmas | time→frame rounding evaluated at `Float` |
 | C04 | Body (v0.0 / v0.1), SpecEnc (`specFileV01`, `specFileV00`) | `readV01_enc`, `legacy_rewrite_v01`, `readV00_enc`, `legacy_rewrite_v00`, `other_version_refused`, `v00_window_ignored`, `v01_window_eq_slice`, `legacy_stream_eq_bytes` | numpy `column_stack` / `ma.concatenate` error behaviour on irregular v0.0 files |
 | C05 | JS | `js_index`, `js_conf_index`, `jsDims_eq`, `js_agrees_v02`, `js_agrees_v01`, `js_v00_enc`, `js_agrees_v00` | `binary-parser` stand-in; the version switch (`hcls`) evaluated on every pattern around the band edges |
 | C06 | Cache | `read_pure`, `read_value_is_decode` + `read_same_after_any_two_histories` (history independence as one equation: after any history the value read = the pure decode of the bytes), `results_disjoint`, `mutation_local`, `other_calls_preserve`, `pose_independent_of_cache` | md5 idealised injective |
